@@ -48,6 +48,12 @@ def gen_C15(ctx, n):
         rate = rng.choice([0.01, 0.02, 0.05, 0.0, 0.2])
         cfg["PLR"] = {"class": "PriceLimitRule", "targetMarkets": targets, "triggerChangeRate": float(rate),
                       "enabled": rng.random() < 0.9}
+        if i % 4 == 1 and len(mk) >= 2:
+            # the obsolete key `referenceMarket` (accepted with a warning, without effect): it names another
+            # market, whose price at time 0 is different — the band stays the one around the order's own market
+            ref = rng.choice([m for m in mk if m != targets[0]])
+            cfg["PLR"]["referenceMarket"] = ref
+            cfg[ref]["marketPrice"] = cfg[ref].get("marketPrice", 300.0) * rng.choice([0.5, 0.66, 1.7])
         evs = ["PLR"]
         others = [m for m in mk if m not in targets]
         if i % 3 == 1:
@@ -650,3 +656,81 @@ def run_units(prop, ctx, n):
             if model != r:
                 diffs.append({"channel": "mistake.hook", "model": model, "impl": r, "input": inp})
     return compared, diffs
+
+
+# ---------------------------------------------------------------------------------------------
+# C19 inside whole simulations: the price an order is *accepted* at is on the grid and not more
+# aggressive than the price it had when the before-order hooks were through with it (a price limit
+# rule clips to a band edge that need not be on the grid; an order-mistake shock writes its own price)
+# ---------------------------------------------------------------------------------------------
+def mon_C19_run(run, cfg, seed):
+    from fractions import Fraction
+    violations, checks, offgrid = [], 0, 0
+    if run.sim is None:
+        return violations, checks, offgrid
+    tick = {m.market_id: m.tick_size for m in run.sim.markets}
+    post = {}
+    for ev in after_setup(run):
+        if ev[0] == "order.post":
+            post[ev[1]] = ev[2]
+        elif ev[0] == "ret.add" and ev[2] in post and ev[3].price is not None and post[ev[2]]["price"] is not None:
+            asked, got, t = post[ev[2]]["price"], ev[3].price, tick[ev[3].market_id]
+            checks += 1
+            on_grid_asked = (asked % t == 0)
+            if not on_grid_asked:
+                offgrid += 1
+            bad = None
+            if got % t != 0:
+                bad = "accepted-price-off-grid"
+            elif on_grid_asked and got != asked:
+                bad = "on-grid-price-changed"
+            elif ev[3].is_buy and not (Fraction(got) <= Fraction(asked) and Fraction(asked) - Fraction(got) < Fraction(t) + Fraction(t) / 2 ** 40):
+                bad = "buy-price-not-rounded-down-by-less-than-a-tick"
+            elif (not ev[3].is_buy) and not (Fraction(got) >= Fraction(asked) and Fraction(got) - Fraction(asked) < Fraction(t) + Fraction(t) / 2 ** 40):
+                bad = "sell-price-not-rounded-up-by-less-than-a-tick"
+            if bad and not any(v["signature"] == "C19/" + bad for v in violations):
+                violations.append(viol("C19", "C19/" + bad,
+                                       "a limit price that is not on the grid when the order reaches the market (after the before-order hooks) is moved onto it before acceptance, downwards for buys and upwards for sells, by less than one tick",
+                                       {"price_after_hooks": asked, "accepted": got, "tick": t, "is_buy": ev[3].is_buy}, cfg, seed))
+    return violations, checks, offgrid
+
+
+def replay_C19_sim(obj):
+    inp = obj["input"]
+    run = rc.run_sim(inp["config"], inp["seed"])
+    vs, _, _ = mon_C19_run(run, inp["config"], inp["seed"])
+    return {"violations": [{"signature": v["signature"], "observed": v["observed"]} for v in vs]}
+
+
+def run_C19_sims(ctx, n=16):
+    rng = ctx.rng("C19", "sims")
+    violations, checks, evaluations, offgrid_after_hooks = [], 0, 0, 0
+    for i in range(n * (ctx.scale if ctx.tier == "thorough" else 1)):
+        cfg = base_cfg(rng, n_markets=rng.choice([1, 2]), steps=rng.choice([6, 10]), n_sessions=1)
+        mk = markets_of(cfg)
+        for nm in mk:
+            cfg[nm]["tickSize"] = rng.choice([10.0, 7.0, 2.5, 0.25])
+        cfg["PLR"] = {"class": "PriceLimitRule", "targetMarkets": [mk[0]], "triggerChangeRate": float(rng.choice([0.25, 0.07, 0.013]))}
+        evs = ["PLR"]
+        if i % 2 == 1:
+            cfg["OMS"] = {"class": "OrderMistakeShock", "target": mk[-1], "triggerTime": rng.randint(0, 3),
+                          "priceChangeRate": float(rng.choice([-0.033, 0.047])), "orderVolume": 2, "orderTimeLength": 3}
+            evs.append("OMS")
+        for s in cfg["simulation"]["sessions"]:
+            s["events"] = list(evs)
+            s["withOrderPlacement"] = True
+        for nm in ("NA", "HA"):
+            if nm in cfg:
+                cfg[nm]["aggr"] = 0.4
+                cfg[nm]["pEmpty"] = 0.0
+        seed = rng.randint(0, 2 ** 31)
+        run = rc.run_sim(cfg, seed)
+        evaluations += 1
+        vs, c, og = mon_C19_run(run, cfg, seed)
+        checks += c
+        offgrid_after_hooks += og
+        for v in vs:
+            if not any(x["signature"] == v["signature"] for x in violations):
+                violations.append(v)
+    return {"violations": violations, "monitor_checks": checks, "evaluations": evaluations,
+            "orders_off_grid_after_hooks": offgrid_after_hooks}
